@@ -8,6 +8,21 @@ ASSUMPTIONS = [
 ]
 
 CONF = {
+    "C02": {
+        "rule": "rapid-generated L2 histories (3..30 ops: fresh receives with 0..4 broken conditions, replays of earlier successes varying body/recipient/caller/attestation encoding/submitter/sender, pause, attester rotation, threshold change, un/re-link, messenger add/remove, multi-message transactions; genesis may pre-list pairs); after every transaction the single-item query of every tracked pair and its neighbours (swapped, +1, shifted), the full list query and the exported list are compared with the model set; non-trivial = history with a replay that is valid in every respect except the nonce of an earlier success; distinct by sequence of op labels and outcomes",
+        "quick": {"rapid": [("TestC02", 400, 1)]},
+        "thorough": {"rapid": [("TestC02", 2500, 16)]},
+    },
+    "C03": {
+        "rule": "rapid-generated receive attempts inside L2 histories (admin/ledger ops change pause flags, attesters, pairs, messengers, allowance, blacklist, minter status); each attempt falsifies a drawn subset of {P2..P7,M2..M6} with several realisations per condition and P1/M1/M6 through state; oracle: success <=> all applicable conditions (recomputed from bytes and model state, attestation by the independent verifier); non-trivial = attempt with a >=116-byte message whose condition vector was not seen before in the case; distinct by condition vector",
+        "quick": {"rapid": [("TestC03", 500, 1)]},
+        "thorough": {"rapid": [("TestC03", 3000, 16)]},
+    },
+    "C08": {
+        "rule": "rapid-generated deposits (both variants) inside L2 histories that move limits, max body size (131/132/133), messengers, pause flags, ledger pause/blacklist/minter/allowance and inject dependency faults; amounts from {-1,0,1,limit-1,limit,limit+1,2^64..2^256-1}; oracle: success <=> conjunction of the documented preconditions; non-trivial = amount within 1 of a configured limit, or max body size within 1 of 132, or >=2 preconditions false; distinct by (condition vector, amount, max body size)",
+        "quick": {"rapid": [("TestC08", 600, 1)]},
+        "thorough": {"rapid": [("TestC08", 5000, 16)]},
+    },
     "C07": {
         "rule": "rapid-generated L2 histories (4..30 transactions over sends, sends-with-caller, deposits, deposits-with-caller, both replacements, multi-message transactions, receives and admin actions, from starting counters {0,1,2^32-1,2^32,2^63,2^64-100}); non-trivial = >=3 successful producers of >=2 types with >=1 failed transaction and >=1 successful replacement; distinct by (start, sequence of op labels and outcomes)",
         "quick": {"rapid": [("TestC07", 500, 1)]},
@@ -18,6 +33,24 @@ CONF = {
 ALL = ["C%02d" % i for i in range(1, 21)]
 
 MANIFEST_TEXT = {
+    "C02": {
+        "technique": "model-based stateful PBT (rapid) on the real BaseApp pipeline: model set of used (domain, nonce) pairs vs per-pair query, list query and export after every transaction; replay generator varies everything but the nonce",
+        "level": "Exploration: generated histories with adversarial replays on the real SDK pipeline against a set model; key injectivity probed through neighbour pairs, not proved.",
+        "note": "Trusts cosmos-sdk rollback, the reference codec/verifier; 2^96 pairs are sampled.",
+        "ref": "DESIGN.md section 3 C02",
+    },
+    "C03": {
+        "technique": "property-based testing (rapid) of receive attempts with generated condition-falsification subsets against an independent recomputation of the acceptance-condition conjunction (reference codec + reference attestation verifier + model ledger)",
+        "level": "Exploration: both directions of 'exactly when' on generated condition subsets and configurations, with state/ledger unchanged on failure.",
+        "note": "D2: callers with non-zero high bytes naming the submitter are generated but not judged; mint success is judged by the model ledger.",
+        "ref": "DESIGN.md section 3 C03",
+    },
+    "C08": {
+        "technique": "property-based testing (rapid) of deposits with generated precondition-falsification and boundary amounts against the reference model's conjunction, in both ledger denom-case modes and with injected dependency faults",
+        "level": "Exploration: both directions of 'exactly when' incl. amount=limit / limit+1 and body 132=max / 131 boundaries on generated configurations.",
+        "note": "A4/D5: minting denom and verdict-relevant limits are lower case; dependency behaviour is the model ledger's.",
+        "ref": "DESIGN.md section 3 C08",
+    },
     "C07": {
         "technique": "model-based stateful property-based testing (rapid) on the real BaseApp pipeline: model counter vs decoded MessageSent nonces, responses and the query after every transaction",
         "level": "Exploration: generated transaction histories on the real SDK pipeline, every step compared with an independent counter model; search, not proof.",
